@@ -44,6 +44,9 @@ def run(chk):
     chk.rule("C18.O4", "DatReader keeps every character of every data row (no dependence on a trailing newline); comments/blank lines skipped; rows sorted", 8)
     chk.rule("C18.O5", "plotToFile writes 'steps' rows x_i = lowx + i*(highx-lowx)/steps, y_i = f(x_i); wrappers forward their arguments", 12)
     chk.attempt("O1", lambda: table_form(chk, P))
+    chk.rule("C18.O1d", "the offered derivatives are the interpolant's own first derivative and that derivative's first derivative", 5)
+    from .c07 import tableform_derivs
+    chk.attempt("O1d", lambda: tableform_derivs(chk, P, "C18.O1d"))
     chk.attempt("O2", lambda: xy_parsing(chk, P))
     chk.attempt("O3", lambda: get_value(chk, P))
     chk.attempt("O4", lambda: dat_reader(chk, P))
